@@ -199,7 +199,7 @@ func runShard(bin string, p *propCfg, tier string, seed int64, shard, nshards in
 			lf.Close()
 		}
 		if done {
-			if !p.KeepLogs {
+			if !p.KeepLogs && os.Getenv("VERIF_KEEP_LOGS") == "" {
 				os.Remove(logPath)
 				os.Remove(outPath)
 			}
